@@ -44,7 +44,7 @@ def _settings(rng):
     if rng.random() < 0.35:
         s["premium"] = True
     if rng.random() < 0.4:
-        s["default_bg"] = rng.choice(("black", "#222", "rgb(250, 250, 240)", "#FFFFFF", "navy", "hsl(0, 0%, 20%)", "#eee", "gray"))
+        s["default_bg"] = rng.choice(("black", "#222", "rgb(250, 250, 240)", "#FFFFFF", "navy", "hsl(0, 0%, 20%)", "#eee", "gray", "var(--page-bg)", "var(--page-bg, #fafafa)"))
     return s
 
 
